@@ -247,21 +247,25 @@ class Parser:
         s = p[1]
         if s in SYM_F1 or s in SYM_F2:
             self.i += 1
-            args = [self.or_(False)]
-            while self.sym() == ",":
-                self.i += 1
-                args.append(self.or_(False))
+            args = []
+            while True:
+                # an argument may be empty ('sin(1,)', 'pow(,2)'): it still counts for the arity
+                args.append(None if self.sym() in (",", ")") else self.or_(False))
+                if self.sym() == ",":
+                    self.i += 1
+                    continue
+                break
             if self.sym() != ")":
                 raise ParseError()
             self.i += 1
-            if s in SYM_F1:
-                if len(args) != 1:
-                    self.arity_bad = True
-                    return ["num", "0"]
-                return ["fn1", SYM_F1[s], args[0]]
-            if len(args) != 2:
+            narg = 1 if s in SYM_F1 else 2
+            if len(args) != narg:
                 self.arity_bad = True
                 return ["num", "0"]
+            if any(a is None for a in args):
+                raise ParseError()       # right number of arguments, one of them empty: no verdict
+            if s in SYM_F1:
+                return ["fn1", SYM_F1[s], args[0]]
             return ["fn2", SYM_F2[s], args[0], args[1]]
         raise ParseError()
 
@@ -311,6 +315,8 @@ def eval_float(t):
     """the term under the stock AtomBase's arithmetic (same operations, same order)"""
     import numpy as np
     k = t[0]
+    if k == "val":
+        return t[1]
     if k == "num":
         return float(t[1].strip())
     if k == "e":
@@ -364,6 +370,62 @@ def eval_str(t):
     if k == "bin" and t[1] == "gt":
         return str(len(eval_str(t[2])) > len(eval_str(t[3])))
     raise ValueError("operation outside the string atom")
+
+
+# ---- flat (postfix) form of terms: for expressions thousands of operators long, no recursion anywhere
+def postfix_of(term):
+    """nested tuple/list term -> postfix token list (iterative)"""
+    out, stack = [], [(term, False)]
+    while stack:
+        t, done = stack.pop()
+        k = t[0]
+        if k == "num":
+            out.append("n:" + t[1])
+        elif k == "e":
+            out.append("e")
+        elif k == "un":
+            if done:
+                out.append("u:" + t[1])
+            else:
+                stack.append((t, True))
+                stack.append((t[2], False))
+        else:
+            if done:
+                out.append("b:" + t[1])
+            else:
+                stack.append((t, True))
+                stack.append((t[3], False))
+                stack.append((t[2], False))
+    return out
+
+
+def norm_postfix(pf):
+    """modulo neg(neg a) = a: in postfix a unary operator follows its operand directly"""
+    out = []
+    for x in pf:
+        if x == "u:neg" and out and out[-1] == "u:neg":
+            out.pop()
+        else:
+            out.append(x)
+    return out
+
+
+def eval_postfix_float(pf):
+    """the postfix term under the stock AtomBase's arithmetic"""
+    import numpy as np
+    st = []
+    for x in pf:
+        if x.startswith("n:"):
+            st.append(float(x[2:].strip()))
+        elif x == "e":
+            st.append(np.e)
+        elif x.startswith("u:"):
+            st.append(eval_float(("un", x[2:], ("val", st.pop()))))
+        else:
+            b = st.pop()
+            a = st.pop()
+            st.append(eval_float(("bin", x[2:], ("val", a), ("val", b))))
+    return st[-1]
 
 
 class Val:
